@@ -28,6 +28,18 @@ CLAIMED = {
     "C17": dict(level="exploration", tech="model-generated inputs (same TLA+ families as C01 plus rejected configurations of MC_Deps); pairwise comparison of the two modes: verdict, build constraint, compilation against a types-only fixture universe, reflected API, panics",
                 text="For every enumerated configuration both modes must agree on accept/reject; for accepted ones the stub must carry the gontainerstub constraint, build against fixture packages that contain only types, expose the same package / type / constructor / exported method set as the normal output (reflection), and its constructor and every generated method must panic.",
                 note="Trusted: Go toolchain, reflection, the types-only fixture copy."),
+    "C03": dict(level="model_checking", tech="TLA+ spec of the chunker as a scanner and of the token-factory chain (Pattern.tla), every symbol string up to the bound enumerated by TLC; each instantiated with concrete runes and replayed: build-time verdict per string, run-time value via the compiled container",
+                text="Exhaustive over all strings up to length 5 (thorough 6) over the classes %, letter, digit, _, ./-, (, ), quote, space, other rune (newline in thorough); DoublingEscapes, OddRejected and Tiling are checked by TLC; the tool must reject exactly the model's reject set (keys named in the diagnostics, suspects re-run alone) and GetParam / constructor arguments must equal the value assembled from the model's chunk structure (single chunk keeps the type, several chunks concatenate the documented casts); env/envInt decision table, failing functions naming the token, todo messages.",
+                note="Trusted: TLC, instantiation of symbol classes, probe. Function arguments that are not simple Go literals are Unconstrained."),
+    "C08": dict(level="exploration", tech="recorded runs (fresh processes, varying environment / cwd / key order) validated as a trace by TLC against Determinism.tla (a run is enabled only if it equals the scenario's first run)",
+                text="Scenarios sampled from the TLC families plus hand-made ones with >= 2 entries at every place the code ranges over a map; each run 10 (thorough 30) times in fresh processes and 4 (10) times with permuted mapping keys; statistical per site (Go's map order cannot be scheduled), exhaustive over the sites known from reading the code.",
+                note="Trusted: sha256, process isolation. Escape probability per visited site about 2^(1-R)."),
+    "C09": dict(level="model_checking", tech="TLA+ spec of field-wise merge (Merge.tla) with associativity / identity / split invariance checked by TLC; file sets enumerated by TLC replayed: tool output on the files vs tool output on the model's merged single file, byte for byte",
+                text="Every attribute overridden by a later file (both orders, one and two attributes, three files, repeated identical entries, the empty file), rich configurations cut into ordered pieces over seven layouts of files and -i patterns where glob order and lexical order of cleaned paths differ; 13824 triples for associativity on the model.",
+                note="Trusted: TLC, concretiser (also writes explicit empty collections)."),
+    "C11": dict(level="model_checking", tech="TLA+ recognisers per grammar position (Grammar.tla) written from the documentation; every symbol string up to the bound enumerated by TLC and placed in every YAML site of its position; flagged keys compared; plus subsets of simultaneous defects",
+                text="Eight positions (name, ident, import, func, type, value, decorator tag, argument forms) x 23 YAML sites, exhaustive up to length 4 (thorough 5-6) over position-specific alphabets; candidates disagreeing in a batch are re-run alone; all subsets of up to 3 of 21 structural defect kinds (same key, different keys, different compile stages) must be reported completely; todo exemption.",
+                note="Trusted: TLC, one concrete instantiation per symbol class. Getter-specific rules are decided by C13's family."),
     "C02": dict(level="model_checking", tech="TLA+ run-time semantics (Container.tla: Build = cache lookup, creation, fields, calls/withers, decorators, cache store) explored by TLC; every history replayed on the compiled generated container linked with the real runtime; object graphs compared up to identity renaming",
                 text="TLC enumerates all choice vectors differing from a base service in at most two of: creation method (constructor, local constructor, error-returning constructor, by-value constructor, package variable, &composite, composite, type-only value/pointer, todo), two argument positions x argument form (int, uint64, float, bool, null, plain/padded strings, strings that look like other literals, @service, !tagged, !value, $gontainer, %param% of each type, multi-chunk, %%, function call, failing), fields (order, unexported), call/wither sequences, scope, decorators, getter; the expected object graph is computed by Container.tla; the probe reports the real graph.",
                 note="Trusted: TLC, concretiser, probe + fixture universe, canonicalisation of identities. Configurations the tool rejects / whose output does not compile are unobservable here (C11/C01)."),
